@@ -20,6 +20,9 @@ CLAIMED = {
  "C15": ("TLA+ proleptic Gregorian calendar (Calendar.tla) model-checked over all dates (closed forms vs successor-day induction, Alg* refinement); TLC trace validation of primitives and getters per year/date in both back-ends",
          "TLC exhaustively checks the calendar reference (YMD/Ord/IsoCal/long years/month arithmetic) against the successor-day induction and the implementation-shaped helper algorithms against the reference (a full 400-year cycle plus both ends of the range in the quick tier, all 3,652,059 dates in the thorough tier); every recorded is_leap/is_long_year/days_in_year (all 9999 years), week_day (every date), Date/DateTime getters and local_time (every day boundary) result of both back-ends is judged by TLC against the reference (getters and local_time over a seed-rotated share of the years in the quick tier, all in the thorough tier)",
          "TLC, harness projection; the standard library's calendar is represented by Calendar.tla, itself validated by the induction", "7 C15"),
+ "C04": ("TLA+ wall-clock calendar arithmetic (OpsArith.tla: AddMonths clamping, then days/time on the wall clock, default-fold normalisation); TLC trace validation over month shapes and tz-database anomalies",
+         "every recorded add()/subtract()/+ Duration/- Duration/+ (-Duration)/Duration + dt call on DateTime and Date - every month length, leap day and year boundary x month shifts beyond +-12 and day shifts beyond a month, targets aimed into the gaps and overlaps enumerated from the tz data with sources of both folds, random mixed-sign components - is judged by TLC against AddCal / AddCalDate; the three operator paths are each compared with the SPEC, not with each other",
+         "TLC, tz database as above, harness projection; Duration operands restricted to canonical signatures (soundness rule 2)", "7 C04"),
 }
 NOT_YET = "check not built yet in this round (planned: see DESIGN.md section 7)"
 
